@@ -229,8 +229,26 @@ func (in *Interp) intrinsic(fn *ssa.Function, args []Value) (Value, bool) {
 		dst := args[0].(SliceVal)
 		// append s to dst using the append builtin semantics
 		return in.appendBytes(dst, []byte(s)), true
-	case "sort.Strings", "sort.Sort", "sort.Slice", "sort.SliceStable", "sort.Stable":
-		return nil, false
+	case "sort.Slice", "sort.SliceStable":
+		// reflection-free model: stable insertion sort driven by the less closure
+		iv, _ := args[0].(IfaceVal)
+		sl, ok := iv.V.(SliceVal)
+		if !ok {
+			in.end("unsupported", "sort.Slice on non-slice")
+		}
+		for i := 1; i < sl.Len; i++ {
+			for j := i; j > 0; j-- {
+				r := in.callValue(args[1], []Value{Const(64, uint64(j)), Const(64, uint64(j-1))})
+				if !in.decide(r.(*Term)) {
+					break
+				}
+				a, b := sl.Arr.E[sl.Off+j], sl.Arr.E[sl.Off+j-1]
+				va, vb := in.load(a), in.load(b)
+				in.store(a, vb)
+				in.store(b, va)
+			}
+		}
+		return nil, true
 	}
 	if f, ok := mathUnary[name]; ok {
 		if x, ok := args[0].(float64); ok {
